@@ -109,6 +109,9 @@ def _refs_scale():
                                                                             "        for var in (Backreference(n) + Optional('a'), OneOrMore('a') + Backreference(n), Backreference(n) + Backreference(1) + AtMost('b', 2), Either(Backreference(n), 'aa' + Backreference(n))):\n"
                                                                             "            try:\n                r = mk(var)\n            except NonFixedWidthPatternException:\n                continue\n            raise AssertionError('group %d: accepted %s' % (n, str(r)[-40:]))\n"
                                                                             "        r = groups + mk(Backreference(n) + 'x' + Backreference(1))\n        re.compile(str(r), 24)\n"
+                                                                            "    for multi in (Backreference(n) + Backreference('tail'), Backreference('head') + Backreference(n) + Backreference('tail'), Backreference(n) + Backreference(max(1, n - 1)) + Backreference('t1') + Backreference('t2')):\n"
+                                                                            "        for mk in (lambda y: PrecededBy('k', y), lambda y: Pregex('k').not_enclosed_by(y)):\n            try:\n                r = mk(multi + Optional('a'))\n            except NonFixedWidthPatternException:\n                pass\n            else:\n                raise AssertionError('group %d and names: accepted %s' % (n, str(r)[-50:]))\n"
+                                                                            "            mk(multi + 'a')\n"
                                                                             "    full = groups + PrecededBy('k', Backreference(n))\n    t = ''.join(chr(0x61 + i % 26) for i in range(n))\n    assert full.is_exact_match(t + 'k'), n\n"
                                                                             "    full2 = groups + last + PrecededBy('k', Backreference(n))\n    assert full2.is_exact_match(t + last + 'k'), n\n    assert not full2.is_exact_match(t + ('z' if last != 'z' else 'y') + 'k'), n"),
     ]
@@ -132,6 +135,11 @@ def _long_literals():
         ("NUL and control characters followed by digits", "for s in ('\\x0012', '\\x000', '\\x007', '\\x00' + '8', 'a\\x001', '\\x01' + '1', '\\x1b[0m', '\\x7f7', '\\x00\\x00' + '77'):\n    p = Pregex(s)\n    assert p.is_exact_match(s) and not p.is_exact_match('\\n') and not p.is_exact_match(s[:-1]), repr(s)\n"
                                                           "    q = Pregex(s[0]) + s[1:]\n    assert q.is_exact_match(s) and not q.is_exact_match('\\n'), repr(s)\n    for k in range(1, len(s)):\n        assert (Pregex(s[:k]) + Pregex(s[k:])).is_exact_match(s), (repr(s), k)\n"
                                                           "    c = Pregex(s)\n    c.compile()\n    assert c.is_exact_match(s) and not c.is_exact_match('\\n')\n    assert Capture(s).get_captures('x' + s) == [(s,)] and AnyFrom(s[0], 'q').is_exact_match(s[0])"),
+        ("strings that start with a digit right after a numeric reference", "for s in ('1', '0', '12', '7a', '00', '9.5'):\n    for lead in ('', 'q', '\\\\', ':\\\\', '\\\\\\\\', 'a\\\\b\\\\'):\n        for n in (1, 2, 10):\n"
+                                                                            "            groups = Concat(*[Capture(AnyLetter()) for _ in range(n)])\n            letters = 'wxyzabcdef'[:n]\n            for build in (lambda: groups + lead + Backreference(n) + s, lambda: groups + Concat(lead, Backreference(n), s) if lead else groups + Concat(Backreference(n), s),\n"
+                                                                            "                          lambda: groups + lead + Enclose(s, Backreference(n)), lambda: groups + (Pregex(lead) + Backreference(n)).concat(s), lambda: groups + Pregex(s).concat(Pregex(lead) + Backreference(n), on_right=False)):\n"
+                                                                            "                r = build()\n                mid = letters[n - 1]\n                texts = [letters + lead + mid + s, letters + lead + mid + s + mid]\n                assert r.is_exact_match(texts[0]) or r.is_exact_match(texts[1]), (s, lead, n, str(r))\n"
+                                                                            "                assert not r.is_exact_match(letters + lead + s), (s, lead, n)"),
         ("long group names", "n = 'group_' + 'x' * 60\np = Capture('a', n) + Backreference(n)\nassert p.is_exact_match('aa') and p.get_named_captures('aa') == [{n: 'a'}]\n"
                              "q = Capture(Capture('a', n), 'short')\nimport re\nassert dict(re.compile(str(q)).groupindex) == {'short': 1}"),
     ]
@@ -324,8 +332,8 @@ def _history():
 
 
 FAMILIES = {
-    'C01': _long_literals, 'C02': lambda: _q_cases()[:20] + _many_groups() + _nary() + _deep() + _long_literals()[1:3] + _sweep_bounds(), 'C03': lambda: _sweep_bounds()[1:] + _nary() + _deep() + _long_literals() + _many_groups() + _classes_more()[:2] + _groups_scale() + FAMILIES['C10']()[-1:] + _refs_scale(),
-    'C04': lambda: _q_cases() + _sweep_bounds()[:1], 'C05': lambda: _nary()[3:], 'C06': lambda: _classes()[:1] + _classes_more()[:2], 'C07': lambda: _classes()[1:] + _classes_more()[2:], 'C08': lambda: _many_groups() + _deep()[1:] + _long_literals()[4:] + _groups_scale(),
+    'C01': _long_literals, 'C02': lambda: _q_cases()[:20] + _many_groups() + _nary() + _deep() + _long_literals()[1:3] + _long_literals()[4:5] + _sweep_bounds(), 'C03': lambda: _sweep_bounds()[1:] + _nary() + _deep() + _long_literals() + _many_groups() + _classes_more()[:2] + _groups_scale() + FAMILIES['C10']()[-1:] + _refs_scale(),
+    'C04': lambda: _q_cases() + _sweep_bounds()[:1], 'C05': lambda: _nary()[3:], 'C06': lambda: _classes()[:1] + _classes_more()[:2], 'C07': lambda: _classes()[1:] + _classes_more()[2:], 'C08': lambda: _many_groups() + _deep()[1:] + _long_literals()[5:] + _groups_scale(),
     'C09': lambda: _nary()[4:] + [("wide repetition of assertions", "for n in (10, 11, 100):\n    for mk in (lambda: MatchAtStart('a'), lambda: FollowedBy('a', 'b'), lambda: EnclosedBy('a', 'b'), lambda: MatchAtLineEnd('a' * 40)):\n"
                                     "        for q in (lambda x: Exactly(x, n), lambda x: x * n, lambda x: AtLeastAtMost(x, 1, n), lambda x: AtLeast(x, n)):\n            try:\n                r = q(mk())\n            except CannotBeRepeatedException:\n                continue\n            raise AssertionError(str(r))\n"
                                     "    assert str(Exactly('a' * 40 + '$', n)).endswith('{%d}' % n)\n"
